@@ -225,6 +225,9 @@ type Inst struct {
 	sub     chan tracing.ITrace
 	recDone chan struct{}
 	Panics  []string
+	// NoWait: the next driver actions are issued without waiting for quiescence in between; they are
+	// recorded as `opnw` so that the driver compares observations only at the end of the batch.
+	NoWait bool
 }
 
 func nodeID(n any) string {
@@ -376,7 +379,11 @@ func NewInst(defs *schema.Definitions, vars map[string]any, opts ...bpmn.Option)
 // Op records a driver action in the history at the current position.
 func (in *Inst) Op(format string, a ...any) {
 	in.mu.Lock()
-	in.lines = append(in.lines, "op "+fmt.Sprintf(format, a...))
+	w := "op "
+	if in.NoWait {
+		w = "opnw "
+	}
+	in.lines = append(in.lines, w+fmt.Sprintf(format, a...))
 	in.mu.Unlock()
 }
 
